@@ -6,6 +6,7 @@ import Driver.Dict
 import Driver.Cli
 import Driver.Kytea
 import Driver.TrainCli
+import Driver.Ac
 /-! `vdriver`: reads one case per line on stdin, writes one response line per case. -/
 open V V.Drv
 
@@ -27,6 +28,7 @@ def handle (line : String) : String :=
   | "WP" :: r => runDict ("WP" :: r)
   | "TR" :: cfg :: _solver :: dict :: tagdict :: corpus :: _eval :: trace :: _ => runTR cfg dict tagdict corpus trace
   | "TL" :: fl :: cfg :: _solver :: tok :: part :: dict :: _ => runTL fl cfg tok part dict
+  | "AC" :: _kind :: pats :: text :: _ => runAC pats text
   | "TK" :: m :: ws :: h :: cl :: _ => runTK m ws h cl
   | "N" :: h :: _ => runN h
   | "B" :: r => runBin ("B" :: r)
